@@ -14,8 +14,6 @@ from __future__ import annotations
 import os
 import random
 import re
-import shutil
-import itertools
 
 from hypothesis import strategies as st
 
@@ -349,7 +347,6 @@ def render(case):
     return '\n'.join(lines) + '\n'
 
 
-_n = itertools.count()
 
 
 def outcome(fn):
@@ -378,7 +375,8 @@ def check_case(case, ctx: Ctx) -> CaseResult:
     nontrivial = False
     random.seed(case['rseed'])
     text = render(case)
-    confdir = os.path.join(ctx.scratch, 'c47', f'c{next(_n)}')
+    # one config dir per process and mode, file overwritten per case
+    confdir = os.path.join(ctx.scratch, 'c47-' + case['mode'])
     os.makedirs(confdir, exist_ok=True)
     old_env = os.environ.get('CYLC_CONF_PATH')
     old_level = LOG.level
@@ -560,7 +558,6 @@ def check_case(case, ctx: Ctx) -> CaseResult:
             os.environ.pop('CYLC_CONF_PATH', None)
         else:
             os.environ['CYLC_CONF_PATH'] = old_env
-        shutil.rmtree(confdir, ignore_errors=True)
     return CaseResult(viol, nontrivial=nontrivial, classes=sorted(classes))
 
 
